@@ -110,6 +110,18 @@ def handle : List String → Option String
       | _ => none
     let (n, r, raised) := blePut parsed [] []
     some s!"{showKeys n} | {showKeys (r.map (·.1))} | {if raised then "raised" else "returned"}"
+  | "cl.bleget" :: items =>
+    -- item = aid.iid:v<n> | aid.iid:r<status> | aid.iid:u
+    let parsed := items.filterMap fun it => match it.splitOn ":" with
+      | [k, a] => (parseKeys k).head?.bind fun key =>
+        match a.toList with
+        | 'v' :: r => (String.ofList r).toNat?.map fun n => (key, BleAnswer.value n)
+        | 'r' :: r => (String.ofList r).toNat?.map fun n => (key, BleAnswer.refused n)
+        | ['u'] => some (key, BleAnswer.undecodable)
+        | _ => none
+      | _ => none
+    let r := bleGet parsed
+    some (if r.isEmpty then "-" else ",".intercalate (r.map fun (k, v) => s!"{k.1}.{k.2}={v}"))
   | ["cl.status", s] =>
     let r := toStatusCode s.toInt!
     some s!"{r.1} {r.2.replace " " "_"}"
